@@ -4,7 +4,9 @@ mod c01;
 mod c05;
 mod c07;
 mod c09;
+mod c10;
 mod c16;
+mod c17;
 mod stats;
 mod util;
 mod zoo;
@@ -27,7 +29,9 @@ fn main() {
             "C07" | "C18" => c07::run(&case),
             "C08" => c07::run08(&case),
             "C09" => c09::run(&case),
+            "C10" => c10::run(&case),
             "C16" => c16::run(&case),
+            "C17" => c17::run(&case),
             "C11" | "C12" | "C13" => stats::run(&case),
             p => panic!("unknown property {p}"),
         });
